@@ -3,11 +3,15 @@
 (a) TLC model-checks the budget model of the backtracking VM (spec/RegexVM.tla): design variant (all invariants + termination)
     and as-is variant (the sub-matcher loops have no step budget: SubStepBound must fail), and the laws of the pattern acceptor.
 (b) construction: every string over the metacharacter vocabulary up to the tier's length (the spec gives vocabulary and length)
-    through the package API, a literal, RegExp() and new RegExp(); flag strings; oversized / truncated specials.  TLC judges outcome
-    typing and agreement with RegexSem's acceptor (accept / reject / outside).
+    through the package API, a literal, RegExp(), new RegExp() and as a string pattern of String.prototype.match / search; flag
+    strings; oversized / truncated specials, huge counts over empty bodies (compile work counted).  TLC judges outcome typing,
+    agreement with RegexSem's acceptor (accept / reject / outside), agreement of the string channels with new RegExp().
 (c) matching: catastrophic families x subject lengths x {api, api with deadline, script, script with deadline}, steps / stack /
-    polls counted through the guarded hook, compared by TLC with the model's bounds."""
+    polls counted through the guarded hook, compared by TLC with the model's bounds.
+(d) case folding: the i flag against subjects with characters whose case mapping is several characters or leaves ASCII; outcome
+    typing, and match / null where the documented ASCII-only folding rule (RegexSem) decides it."""
 import itertools, json, os, random, time
+from concurrent.futures import ThreadPoolExecutor
 from harness import tlc, engine, wire
 from harness.common import Machinery
 
@@ -16,12 +20,14 @@ LAW_CFG = "INIT LawInit\nNEXT LawNext\nINVARIANT AcceptorLaw\nCHECK_DEADLOCK FAL
 CONS_CFG = "INIT ConsInit\nNEXT JudgeNext\nCHECK_DEADLOCK FALSE\n"
 WHY_CFG = "INIT WhyInit\nNEXT JudgeNext\nCHECK_DEADLOCK FALSE\n"
 RUN_CFG = "INIT RunInit\nNEXT JudgeNext\nCHECK_DEADLOCK FALSE\n"
+FOLD_CFG = "INIT FoldInit\nNEXT JudgeNext\nCHECK_DEADLOCK FALSE\n"
 VM_CONST = "CONSTANTS StepLimit = 4  StackLimit = 2  PollInterval = 2  N = 1  MaxSub = 1  MaxSubRuns = 2  Devs = %s\n"
 VM_DESIGN = VM_CONST % "{}" + ("SPECIFICATION Spec\nINVARIANTS TypeOK StepBound SubStepBound StackBound PollBound WorkBound SubWorkBound Outcome\n"
                               "PROPERTY Terminates\n")
 VM_ASIS = VM_CONST % '{"Dev_SubNoStepLimit"}' + ("SPECIFICATION Spec\nINVARIANTS TypeOK StepBound SubStepBound StackBound PollBound WorkBound Outcome\n"
                                                   "CONSTRAINT SubCap\n")
-CHANNELS = ["api", "literal", "RegExp()", "new RegExp()"]
+SPECIAL_PROCS = 8
+CHANNELS = ["api", "literal", "RegExp()", "new RegExp()", "'s'.match(P)", "'s'.search(P)"]
 
 
 def cpu():
@@ -47,13 +53,15 @@ def run(rep):
     kinds = {}
     for r in res.records:
         kinds.setdefault(r["kind"], []).append(r)
-    if not all(k in kinds for k in ("strings", "flags", "special", "family")):
+    if not all(k in kinds for k in ("strings", "flags", "special", "family", "fold")):
         raise Machinery("enumeration incomplete: %r" % list(kinds))
     construction(rep, kinds["strings"][0], kinds["flags"][0], kinds["special"])
     matching(rep, kinds["family"])
+    folding(rep, kinds["fold"])
     rep.exhaustive = True
     rep.notes["rule"] = ("construction: one judged evaluation = one (pattern string, channel); matching: one judged run = (family, subject length, mode) "
-                         "with per-loop-kind step counts, stack high-water mark and poll count")
+                         "with per-loop-kind step counts, stack high-water mark and poll count; folding: one judged evaluation = one "
+                         "(pattern, flags, subject, operation)")
     rep.assumptions += ["RegexSem's acceptor: accept = in the grammar of ECMA-262 22.2.1, reject = not even in Annex B.1.2, anything between is not judged",
                         "a run longer than the counting cap is judged on its observed prefix (bounded by counting, DESIGN 6)"]
 
@@ -68,14 +76,16 @@ def words(vocab, maxlen):
 def construction(rep, strings, flags, specials):
     vocab, maxlen = strings["vocab"], strings["maxlen"]
     total = sum(len(vocab) ** n for n in range(maxlen + 1))
-    rep.spaces.append({"space": "all strings over %d metacharacters up to length %d x 4 channels (+ uncaught forms up to length 3)" % (len(vocab), maxlen),
+    rep.spaces.append({"space": "all strings over %d metacharacters up to length %d x %d channels (+ uncaught forms up to length 3)" % (len(vocab), maxlen, len(CHANNELS)),
                        "strings": total, "complete": True})
     extras = []
     for fs in words(flags["letters"], flags["maxlen"]):
         extras.append({"p": [97], "fl": "".join(chr(c) for c in fs), "flu": fs, "uncaught": False})
     for s in specials:
-        extras.append({"p": s["head"] + s["unit"] * s["count"] + s["tail"], "expect": s["expect"], "name": s["name"], "uncaught": True, "wall": 120.0,
-                       "nolit": s["name"].startswith("quant-huge")})
+        # the huge counts over empty bodies cost about a second per construction where the engine refuses them as too large:
+        # every channel in its try/catch form (the uncaught forms of the same sites are exercised by all other specials and strings)
+        extras.append({"p": s["head"] + s["unit"] * s["count"] + s["tail"], "expect": s["expect"], "name": s["name"],
+                       "uncaught": not s["name"].startswith("emptyrep-"), "wall": 120.0, "nolit": s["name"].startswith("quant-huge")})
     rep.spaces.append({"space": "flag strings up to length %d over %s; %d special constructions" % (flags["maxlen"], "".join(chr(c) for c in flags["letters"]), len(specials)),
                        "cases": len(extras), "complete": True})
     if rep.tier == "thorough":
@@ -101,6 +111,7 @@ def construction(rep, strings, flags, specials):
     stats = {"accept": 0, "reject": 0, "outside": 0}
     judged = 0
     tE = tJ = 0.0
+    works = {}
     first = True
     while True:
         items = []
@@ -116,10 +127,19 @@ def construction(rep, strings, flags, specials):
         if not items:
             break
         c0 = cpu()
-        batches = [{"id": k, "items": items[k:k + 400]} for k in range(0, len(items), 400)]
+        # a special is a batch and a child process of its own, next to the 16 that share the batches of 400 strings (some specials
+        # take seconds per channel: in one batch, as they were, they made one child the last to finish by far)
+        alone = [it for it in items if "name" in it]
+        rest = [it for it in items if "name" not in it]
+        batches = [{"id": k, "items": rest[k:k + 400]} for k in range(0, len(rest), 400)]
         rnd2 = random.Random(1)
         rnd2.shuffle(batches)
-        results = engine.run_cases(rep.pid, batches, driver="checks.c10_driver:construct_batch", tag="eng_cons", timeout=14400)
+        with ThreadPoolExecutor(max_workers=SPECIAL_PROCS) as ex:
+            futs = [ex.submit(engine.run_cases, rep.pid, [{"id": 10**6 + k, "items": [it]}], driver="checks.c10_driver:construct_batch",
+                              tag="eng_special_%d" % k, timeout=14400) for k, it in enumerate(alone)]
+            results = engine.run_cases(rep.pid, batches, driver="checks.c10_driver:construct_batch", tag="eng_cons", timeout=14400)
+            for f in futs:
+                results.extend(f.result())
         tE += cpu() - c0
         byid = {it["id"]: it for it in items}
         recs = []
@@ -131,6 +151,11 @@ def construction(rep, strings, flags, specials):
             elif "expect" in it:
                 rec["expect"] = it["expect"]
                 rec["name"] = it["name"]
+                rec["plen"] = len(it["p"])
+                if "work" not in r:
+                    raise Machinery("no compile-work count for special %s" % it["name"])
+                rec["work"] = r["work"]
+                works[it["name"]] = r["work"] + [r.get("cpu_s")]
             else:
                 rec["p"] = it["p"]
             recs.append(rec)
@@ -175,7 +200,54 @@ def construction(rep, strings, flags, specials):
     rep.validated += judged
     rep.evaluations = (rep.evaluations or 0) + judged
     rep.notes["construction_classes"] = stats
+    rep.notes["specials(nodes_visited,emitted,cpu_s_all_channels)"] = {k: works[k] for k in sorted(works)}
     rep.notes["construction_engine_judge_cpu_s"] = [round(tE, 1), round(tJ, 1)]
+
+
+def folding(rep, chars):
+    items = []
+    for ch in sorted(chars, key=lambda c: c["c"]):
+        for pat in sorted(ch["pats"], key=lambda x: x["name"]):
+            for fl in sorted(ch["flags"]):
+                for subj in sorted(ch["subjects"]):
+                    items.append({"id": len(items), "c": ch["c"], "pat": pat["name"], "src": pat["src"], "exact": pat["exact"], "fl": fl, "subj": subj,
+                                  "ops": ch["ops"]})
+    nops = sum(len(it["ops"]) for it in items)
+    rep.spaces.append({"space": "i-flag matching: %d special-casing characters x patterns x flag sets x subjects x operations" % len(chars),
+                       "cases": len(items), "evaluations": nops, "complete": True})
+    batches = [{"id": k, "items": items[k:k + 40]} for k in range(0, len(items), 40)]
+    c0 = cpu()
+    results = engine.run_cases(rep.pid, batches, driver="checks.c10_driver:fold_batch", tag="eng_fold", timeout=3600)
+    rep.notes["folding_engine_cpu_s"] = round(cpu() - c0, 1)
+    byid = {r["id"]: r for r in results}
+    if len(byid) != len(items):
+        raise Machinery("engine returned %d results for %d folding cases" % (len(byid), len(items)))
+    recs = [{"id": it["id"], "src": it["src"], "fl": it["fl"], "subj": it["subj"], "exact": it["exact"], "out": byid[it["id"]]["out"]} for it in items]
+    verdicts, st, tr, wall = tlc.judge(rep.pid, "C10", recs, FOLD_CFG, tag="judge_fold", shards=4, timeout=3600)
+    got = {v["id"]: v for v in verdicts}
+    if len(got) != len(recs):
+        raise Machinery("judge returned %d verdicts for %d folding cases" % (len(got), len(recs)))
+    outcomes = {}
+    exact = 0
+    for it in items:
+        v, r = got[it["id"]], byid[it["id"]]
+        if v["exp"] == "?":
+            raise Machinery("the specification does not parse its own folding pattern %r" % wire.from_units(it["src"]))
+        exact += len(it["ops"]) if it["exact"] else 0
+        label = "/%s/%s on %r" % (wire.from_units(it["src"]), wire.from_units(it["fl"]), ["U+%04X" % u for u in it["subj"]])
+        for c, b in enumerate(v["bad"]):
+            outcomes[r["out"][c]] = outcomes.get(r["out"][c], 0) + 1
+            if b:
+                rep.mismatch("%s [%s] %s" % (label, it["ops"][c], b),
+                             {"expected": v["exp"] if b == "!folding" else "match / null (script level: or an error of the JSError family)",
+                              "actual": r["out"][c], "detail": r["ty"][c], "clause": b,
+                              "case": {"src": it["src"], "fl": it["fl"], "subj": it["subj"], "op": it["ops"][c]}}, dev="")
+        if not any(v["bad"]) and it["id"] % 173 == 5:
+            rep.sample({"case": label, "ops": it["ops"], "engine": r["out"], "expected": v["exp"], "verdict": "pass"}, limit=8)
+    rep.add_judge(nops, st, tr)
+    rep.evaluations = (rep.evaluations or 0) + nops
+    rep.notes["folding_outcomes"] = outcomes
+    rep.notes["folding_evaluations_judged_exactly"] = exact
 
 
 def show_cons(it):
